@@ -267,6 +267,15 @@ func installExternals(ex *Exec) {
 	}
 	E["bytes.Compare"] = E["internal/bytealg.Compare"]
 	E["strings.Compare"] = E["internal/bytealg.Compare"]
+	// regular expressions are not executed (outside every claim)
+	E["regexp.Compile"] = func(ex *Exec, fr *frame, a []Value) Value {
+		unsupported("regexp.Compile (regular expressions are not encoded)")
+		return nil
+	}
+	E["regexp.MustCompile"] = E["regexp.Compile"]
+	// strings are immutable values in the executor: a clone is the string
+	E["internal/stringslite.Clone"] = func(ex *Exec, fr *frame, a []Value) Value { return a[0] }
+	E["strings.Clone"] = E["internal/stringslite.Clone"]
 	E["internal/bytealg.CompareString"] = E["internal/bytealg.Compare"]
 	E["runtime.cmpstring"] = E["internal/bytealg.Compare"]
 	E["internal/bytealg.MakeNoZero"] = func(ex *Exec, fr *frame, a []Value) Value {
